@@ -288,7 +288,7 @@ func replay(a *hx.Args, res *hx.Result) {
 			return w
 		}
 		w := newWorld(kp)
-		for i := range rev {
+		for i := 0; i < len(rev) || i < 6; i++ { // (at least six events: foreign updates of every index are needed)
 			if err := w.revoke(pool2[i]); err != nil {
 				hx.Fatal("Remove: %v", err)
 			}
@@ -323,6 +323,8 @@ func replay(a *hx.Args, res *hx.Result) {
 			return
 		}
 		switch t.Act.Op {
+		case "applyforeign":
+			replayApplyForeign(w, getWorld2(t.Rev), pool[0], t, res)
 		case "apply":
 			replayApply(w, pool[0], t, res)
 		case "prepend":
@@ -373,6 +375,32 @@ func replayApply(w *world, e *big.Int, t Trans, res *hx.Result) {
 	}
 }
 
+// replayApplyForeign: Witness.Update with a genuinely signed update of another accumulator chain under the same key
+func replayApplyForeign(w, foreign *world, e *big.Int, t Trans, res *hx.Result) {
+	wit := w.witness(e, t.Wit.Idx, t.Wit.T, t.Wit.Good)
+	upd := foreign.update(0, t.Act.G, t.Act.H, -1)
+	before := snap(wit)
+	var err error
+	panicked, msg := hx.Try(func() { err = wit.Update(w.kp.PK, upd) })
+	res.Eval(fmt.Sprintf("applyforeign/%v/%v/%d/%d", t.Rev, t.Wit, t.Act.G, t.Act.H))
+	res.Count("applyforeign:" + t.Act.Res)
+	if panicked {
+		res.Violation("apply-panic", "Witness.Update panicked: "+msg, hx.M{"case": t})
+		return
+	}
+	if wantNil := t.Act.Res == "noop"; (err == nil) != wantNil {
+		res.Violation("apply-diverges", fmt.Sprintf("Witness.Update with an update of another accumulator (index %d, time %d): spec %s, code err=%v", t.Act.G, t.Act.H, t.Act.Res, err), hx.M{"case": t})
+		return
+	}
+	if snap(wit) != before {
+		res.Violation("foreign-update-changed-witness", fmt.Sprintf("Witness.Update with an update of another accumulator (index %d, time %d, err=%v) changed the witness", t.Act.G, t.Act.H, err), hx.M{"case": t})
+		return
+	}
+	if w.valid(wit) != t.Wit.Good {
+		res.Violation("foreign-update-changed-witness", "the witness is no longer valid for the accumulator it holds", hx.M{"case": t})
+	}
+}
+
 func replayPrepend(w *world, t Trans, res *hx.Result) {
 	upd := w.update(t.Upd.First, t.Upd.Last, t.Upd.T, t.Upd.Memo)
 	el := w.eventlist(t.Act.G, t.Act.H, t.Act.P)
@@ -413,6 +441,14 @@ func replaySeq(w, foreign *world, e *big.Int, t Trans, res *hx.Result) {
 			err1 = upd.Prepend(w.eventlist(t.Act1.G, t.Act1.H, t.Act1.P))
 		case "prependforeign":
 			err1 = upd.Prepend(foreign.eventlist(t.Act1.G, t.Act1.H, t.Act1.P))
+		case "applyforeign":
+			err1 = wit.Update(w.kp.PK, foreign.update(0, t.Act1.G, t.Act1.H, -1))
+		case "redecode":
+			// another genuine message of the chain is decoded into the used update object
+			var bts []byte
+			if bts, err1 = json.Marshal(w.update(t.Act1.G, len(w.accs)-1, t.Act1.H, -1)); err1 == nil {
+				err1 = json.Unmarshal(bts, upd)
+			}
 		}
 	})
 	res.Eval(fmt.Sprintf("seq/%v/%v/%v/%v/%s", t.Rev, t.Wit, t.Upd, *t.Act1, t.Act.Res))
@@ -421,7 +457,7 @@ func replaySeq(w, foreign *world, e *big.Int, t Trans, res *hx.Result) {
 		res.Violation("seq-panic", "first call panicked: "+msg, hx.M{"case": t})
 		return
 	}
-	if wantOK := t.Act1.Res == "ok"; (err1 == nil) != wantOK {
+	if wantOK := t.Act1.Res == "ok" || t.Act1.Res == "noop"; (err1 == nil) != wantOK {
 		res.Violation("seq-first-call-diverges", fmt.Sprintf("spec: %s -> %s, code: err=%v", t.Act1.Op, t.Act1.Res, err1), hx.M{"case": t})
 		return
 	}
